@@ -16,7 +16,7 @@ FOREST = "mdpax.problems.forest.Forest"
 def gen_seq(rng, i, tier):
     """one op sequence on one problem"""
     ops = []
-    with_cfg = rng.random() < 0.6
+    with_cfg = rng.random() < 0.6 or i % 6 == 1       # every sixth sequence is forced to contain a restore with the frequency-0 override (below)
     pid = f"p{i}"
     if with_cfg:
         kw = {"S": rng.choice([3, 4, 6]), "p": rng.choice([0.125, 0.25]), "r1": float(rng.randint(2, 8)), "r2": float(rng.randint(1, 4))}
@@ -28,6 +28,8 @@ def gen_seq(rng, i, tier):
         S = spec_size(spec)
     kind = rng.choice(["vi", "vi", "rvi", "periodic", "pi", "semi"])
     f = rng.choice([0, 1, 2, 3, 5, 100])
+    if i % 6 == 1:
+        f = rng.choice([1, 2])
     m = rng.choice([1, 2, 3, 5])
     new = {"op": "new", "solver": kind, "id": pid, "maxbs": rng.choice([2, 64]), "sid": f"s{i}", "n_hint": S, "f": f, "m": m, "dir": f"d{i}", "cfg": int(with_cfg),
            "async": rng.randint(0, 1), "gamma": "1/2", "eps": rng.choice(["1/64", "1/4096", "1/1048576"]), "test": "span"}
@@ -46,7 +48,7 @@ def gen_seq(rng, i, tier):
     for k in ks:
         ops.append({"op": "solve", "sid": new["sid"], "k": k, "_new": new})
         ops.append({"op": "ls", "dir": new["dir"], "template_sid": new["sid"], "_new": new})
-    if with_cfg and f > 0 and rng.random() < 0.7:
+    if with_cfg and f > 0 and (rng.random() < 0.7 or i % 6 == 1):
         same = rng.random() < 0.5
         r = {"op": "restore", "sid": f"r{i}", "dir": new["dir"], "solver": kind, "id": pid}
         if not same:
